@@ -330,7 +330,6 @@ static int vf_op(long leng)
 			continue;
 #endif
 		}
-		if (i == VF_OP_TOP && vf_R.sp == 0) continue;
 		menu[n++] = i;
 	}
 	(void)leng;
@@ -441,24 +440,29 @@ static void vf_did_begin(int sc, int now)
 {
 	vf_R.sc = sc;
 	if (now != sc) vf_op_mismatch("yystart() after yybegin", sc, now);
+	vf_n_op_effect++;
 }
 static void vf_did_push(int sc, int now)
 {
 	if (vf_R.sp < 255) vf_R.stack[vf_R.sp++] = vf_R.sc;
 	vf_R.sc = sc;
 	if (now != sc) vf_op_mismatch("yystart() after yy_push_state", sc, now);
+	vf_n_op_effect++;
 }
 static int vf_expect_underflow;
-static void vf_will_pop(void) { vf_expect_underflow = (vf_R.sp == 0); }
+static void vf_will_pop(void) { vf_expect_underflow = (vf_R.sp == 0); if (vf_expect_underflow) vf_expected_fatal = "underflow"; }
 static void vf_did_pop(int now)
 {
 	if (vf_expect_underflow) vf_op_mismatch("yy_pop_state on an empty stack returned", -1, now);
 	vf_R.sc = vf_R.stack[--vf_R.sp];
 	if (now != vf_R.sc) vf_op_mismatch("yystart() after yy_pop_state", vf_R.sc, now);
+	vf_n_op_effect++;
 }
 static void vf_did_top(int top)
 {
-	if (top != vf_R.stack[vf_R.sp - 1]) vf_op_mismatch("yy_top_state()", vf_R.stack[vf_R.sp - 1], top);
+	int exp = vf_R.sp > 0 ? vf_R.stack[vf_R.sp - 1] : vf_R.sc;   /* manual: the current state if the stack is empty */
+	if (top != exp) vf_op_mismatch("yy_top_state()", exp, top);
+	vf_n_op_effect++;
 }
 static void vf_did_setbol(int v, int now)
 {
@@ -503,6 +507,35 @@ static void vf_fresh(void)
 	if (yylex_init(&vf_scanner) != 0) vf_hard_error("yylex_init failed");
 }
 static void vf_finish(void) { if (vf_scanner) { yylex_destroy(vf_scanner); vf_scanner = 0; } }
+#endif
+
+/* start condition chosen and stack filled through the API before the first yylex() call */
+#if defined(VF_BEGIN_OUTSIDE) || defined(VF_PRELOADS)
+static void vf_begin_outside(int sc)
+{
+#if defined(VF_API_NR)
+	yybegin(sc);
+#elif defined(VF_API_R)
+	struct yyguts_t *yyg = (struct yyguts_t *)vf_scanner;
+	yybegin(sc);
+#else
+	yybegin(sc, vf_scanner);
+#endif
+}
+#endif
+#ifdef VF_PRELOADS
+static const int vf_preloads[] = { VF_PRELOADS };
+static int vf_preload;
+static void vf_do_preload(void)
+{
+	int i;
+	for (i = 0; i < vf_preload; i++) {
+		int sc = vf_sc_args[i % (int)(sizeof vf_sc_args / sizeof vf_sc_args[0])];
+		yy_push_state(sc VF_S1);
+		if (vf_R.sp < 255) vf_R.stack[vf_R.sp++] = vf_R.sc;
+		vf_R.sc = sc;
+	}
+}
 #endif
 
 /* vf_cur_sc (declared in section 1) is read by %option user-init: yybegin(vf_cur_sc) */
@@ -573,6 +606,12 @@ static void vf_run_one(void)
 		if (vf_bufsize > 0)
 			yy_switch_to_buffer(yy_create_buffer(stdin, vf_bufsize VF_S1) VF_S1);  /* a NULL file would mark the buffer as not refillable */
 #endif
+#ifdef VF_BEGIN_OUTSIDE
+		vf_begin_outside(vf_g->sc);
+#endif
+#ifdef VF_PRELOADS
+		vf_do_preload();
+#endif
 		do { vf_lex_calls++; r = VF_LEX(); } while (r != 0);
 		vf_in_yylex = 0;
 		if (vf_R.head < vf_R.tail) {
@@ -597,7 +636,17 @@ static void vf_explore_input(void)
 	vf_n_inputs++;
 	for (i = 0; i < (int)(sizeof vf_bufsizes / sizeof vf_bufsizes[0]); i++) {
 		vf_bufsize = vf_bufsizes[i];
+#ifdef VF_PRELOADS
+		{
+			int j;
+			for (j = 0; j < (int)(sizeof vf_preloads / sizeof vf_preloads[0]); j++) {
+				vf_preload = vf_preloads[j];
+				vf_explore(vf_run_one);
+			}
+		}
+#else
 		vf_explore(vf_run_one);
+#endif
 	}
 }
 
